@@ -71,6 +71,12 @@ def gen_case(seed: int, tier: str, index: int) -> Dict[str, Any]:
         cfg["world"] = "T"
         cfg["snapshot"] = snapshot_files()[rng.randrange(len(snapshot_files()))].split("/")[-1]
         cfg["tables"] = {"idle": {"PING_FREQUENCY_IN_SECONDS": rng.choice([1, 2]), "FACADE_UPDATE_FREQUENCY_IN_SECONDS": rng.choice([2, 5])}}
+        if rng.random() < 0.6:
+            # lossy run with the protocol counter advanced to just below its wrap: retransmissions of the requests numbered 189..191, 1..
+            cfg["lossy"] = True
+            cfg["advance_protocol_to"] = rng.choice([180, 186, 188, 189, 190])
+            cfg["net"].update({"loss": rng.choice([0.15, 0.3])})
+            cfg["tables"]["idle"].update({"PROTOCOL_TIMEOUT_IN_SECONDS": rng.choice([0.5, 1]), "PING_DEVICE_NOT_RESPONDING_TIMEOUT_IN_SECONDS": 600})
         for _ in range(rng.randint(20, 80)):
             plan.append({"op": rng.choice(["pump_mode", "switch", "eco", "watercare", "temp", "press"]), "arg": rng.randrange(1 << 16),
                          "gap": rng.choice([0.1, 0.3, 1.0])})
@@ -306,6 +312,7 @@ def wire_sync(world: WorldT) -> None:
 
     res = world.result
     cfg = world.cfg
+    world.net.healed = True
     with world.host(SPA_IP):
         sim = make_simulator(model_spa_class())
         sim.set_snapshot(load_snapshot(os.path.join(repo_root(), "tests", "snapshots", cfg["snapshot"])))
@@ -315,6 +322,17 @@ def wire_sync(world: WorldT) -> None:
     if not world.wait_until(lambda: facade.is_connected, 44):
         raise HarnessError("blocking facade did not connect on a benign network")
     world.sleep(1.0)
+    lossy = bool(cfg.get("lossy"))
+    if lossy:
+        # more requests have been made on this connection (numbers drawn through the counter's own entry point), then the network gets lossy
+        spa0 = facade.spa
+        guard = 0
+        while guard < 400:
+            guard += 1
+            if spa0.get_and_increment_sequence_counter(False) >= cfg["advance_protocol_to"]:
+                break
+        world.net.healed = False
+        res.probe("threaded_wire_lossy_near_wrap")
     # the blocking facade builds its device lists from a set(): sort, so that the harness' choice does not depend on PYTHONHASHSEED
     switches = sorted(list(facade.blowers) + list(facade.lights), key=lambda d: d.key)
     pumps = sorted(facade.pumps, key=lambda d: d.key)
@@ -344,11 +362,12 @@ def wire_sync(world: WorldT) -> None:
         except Exception as e:
             res.probe("op_raised:" + type(e).__name__)
     world.sleep(2.0)
+    world.net.healed = True
     facade.complete()
     sim._socket.close()
     check_wire(world, res, "threaded")
     res.nontrivial = res.stats.get("wire_checked", 0) > 10
-    res.faultfree = True
+    res.faultfree = not lossy
     res.shape = format(mix(0, repr([o["op"] for o in world.case["plan"]])), "x")
     res.sample = {"kind": "wire-sync", "datagrams_checked": res.stats.get("wire_checked"), "spack": res.stats.get("spack_on_wire"), "ops": len(world.case["plan"])}
 
